@@ -110,7 +110,16 @@ static void treeHistories(Ctx& c, Rng& rng, const std::string& name, unsigned hi
 				size_t na = a->GetCount();
 				c.stats.count(std::string("count_ge_") + (na >= 64 ? "64" : na >= 16 ? "16" : "0"));
 			}
-			runOp("destroy b", F_NONE, 0, [&] { b.reset(); });
+			// directed (finding F27, repaired in 4f1864d): MergeTo into an EMPTY destination with an equal manager, the source destroyed
+			// first, then the destination allocates and frees nodes - its node pools must not refer to the source's manager
+			if (clsA == clsB && rng.chance(1, 2)) {
+				runOp("a.Clear(); b.MergeTo(a) into the empty a", F_NONE, 0, [&] { a->Clear(); b->MergeTo(*a); });
+				c.stats.count("merge_into_empty_then_source_destroyed");
+				runOp("destroy b", F_NONE, 0, [&] { b.reset(); });
+				runOp("a.Insert(3 new keys); a.Remove(begin)", F_NONE, 0, [&] { A::insM(*a, 100001); A::insM(*a, 100002); A::insM(*a, 100003); a->Remove(a->GetBegin()); });
+			}
+			else
+				runOp("destroy b", F_NONE, 0, [&] { b.reset(); });
 			runOp("a.Clear()", F_NONE, 0, [&] { a->Clear(); });
 			c.stats.count("clear_with_shrink");
 			if (r.live.size() != fixedBlocks || !r.liveElems.empty())
@@ -132,7 +141,7 @@ int main(int argc, char** argv)
 	static const char* suiteName[] = { "c03_treeset", "c03_treemap", "c03_treesmall" };
 	Suite s(c, suiteName[C03_PART], "model ledger");
 	Rec& r = rec(); r.c = &c; r.s = &s; r.family = suiteName[C03_PART];
-	unsigned H = c.thorough ? 300 : 30, N = c.thorough ? 140 : 80;
+	unsigned H = c.thorough ? 200 : 30, N = c.thorough ? 120 : 80;
 	using namespace momo;
 	typedef TreeNode<32, 4, MemPoolParams<8>, true> Node32;
 	typedef TreeNode<4, 2, MemPoolParams<3, 1>, false> Node4;
